@@ -495,10 +495,12 @@ def runFillerLine (toks : List String) : String :=
   match parseFDesc (field toks "s").toList with
   | some (d, []) =>
     let supply : Ty → Nat := fun t => if t ≥ 100 || t == 44 then 77 else 1000 + t
-    match d.inputs [], fillerFields d supply with
+    let existing := fieldNat toks "ex" == 1
+    match d.inputs [], (if existing then fillerFieldsExisting d supply 55 else fillerFields d supply) with
     | some ins, some fl =>
       let f := ",".intercalate (fl.map fun pv => s!"{fmtPath pv.1}={pv.2}")
-      s!"mfiller {i} ok inputs={fmtTys (ins.map (·.2))} fields={if f.isEmpty then "-" else f}"
+      -- with FillExisting the first input is the struct (pointer) itself: code 98
+      s!"mfiller {i} ok inputs={fmtTys ((if existing then [98] else []) ++ ins.map (·.2))} fields={if f.isEmpty then "-" else f}"
     | _, _ => s!"mfiller {i} err"
   | _ => s!"mfiller {i} parse-error"
 
